@@ -313,6 +313,21 @@ func c05Build(env *core.Env) *c05Pool {
 		} else {
 			env.Skip("pool-literal-not-a-value")
 		}
+		// the same value produced by an operation instead of a literal (a computed value may carry other hidden state)
+		if calc := map[string]string{"Time": "(" + s + " - 24 hours)", "Integer": "(" + s + " + 0)", "String": "(" + s + " & '')"}[m.Kind]; calc != "" {
+			if rc := fx.E(env, calc); rc.IsValue() && len(rc.Raw) == 1 {
+				p.vals = append(p.vals, c05Val{calc, "calc", m})
+				p.runtime = append(p.runtime, rc.Raw[0])
+			}
+		}
+		// a full-precision DateTime with an offset also as an instant element that carries no precision
+		if m.Kind == "DateTime" && m.T.Comps == 6 && m.T.HasTZ && m.T.Frac != "" && len(m.T.Frac) >= 3 {
+			if fv, ok := fhirCarrier(m, 0); ok {
+				dt := fv.(*dtpb.DateTime)
+				p.vals = append(p.vals, c05Val{s, "fhir", m})
+				p.runtime = append(p.runtime, &dtpb.Instant{ValueUs: dt.ValueUs, Timezone: dt.Timezone})
+			}
+		}
 		for variant := 0; variant < 2; variant++ {
 			if fv, ok := fhirCarrier(m, variant); ok {
 				if variant == 1 && m.Kind != "Integer" && m.Kind != "String" && m.Kind != "Date" && !(m.Kind == "DateTime" && m.T.Comps <= 3) {
